@@ -278,6 +278,7 @@ class Program(object):
                         m.assigns[t.id] = s.value
             elif isinstance(s, ast.FunctionDef):
                 m.funcs[s.name] = FunctionInfo(m, None, s, 'function')
+                m.funcs[s.name].decorators = _decorator_names(s)
             elif isinstance(s, ast.ClassDef):
                 c = ClassInfo(m, s)
                 m.classes[s.name] = c
